@@ -340,6 +340,109 @@ theorem C11_gen_writer :
     (∀ e ∈ Gen.C11.writerTable, ∃ o ∈ Op.all, o.name = e.2 ∧ (o.kind = .both ∨ o.kind = .segOnly ∨ o.kind = .refOnly)) ∧
     Gen.C11.clipOp.2 = (Op.H.name, Op.S.name) := by decide
 
+/-! ### pass 7: literals, guards, defaults, step order and exception classes regenerated from the source -/
+
+/-- default arguments of the public functions (what the adapter and the model assume when an argument is omitted) -/
+theorem C11_gen_defaults :
+    Gen.C11.writerDefaults = [("reference_index", "0"), ("segment_index", "1"), ("introns", "()"), ("distinguish_matches", "False"),
+      ("hard_clip", "False"), ("include_terminal_gaps", "False"), ("as_string", "True")] ∧
+    Gen.C11.readerDefaults = [] ∧
+    Gen.C11.facts.lookup "get_sequence_identity.defaults" = some "mode='not_terminal'" ∧
+    Gen.C11.facts.lookup "get_pairwise_sequence_identity.defaults" = some "mode='not_terminal'" ∧
+    Gen.C11.facts.lookup "score.defaults" = some "gap_penalty=-10;terminal_penalty=True" ∧
+    Gen.C11.facts.lookup "get_alignment.defaults" = some "additional_gap_chars=('_',);seq_type=None" ∧
+    Gen.C11.facts.lookup "align_multiple.defaults" = some "gap_penalty=-10;terminal_penalty=True;distances=None;guide_tree=None" := by
+  decide
+
+/-- cigar.py: the writer's refusing guards in source order (double gap, skipped positions `diff != 1`, intron `start >= stop`,
+`start < 0`, intron outside a deletion — all ValueError, as `columnOps`/`acceptB` assume), the reader's refusals, the clip
+formula `len(segment) − seg_trace[−1] − 1` / `seg_trace[0]`, the trimming slice `pos[0] : pos[−1] + 1`, count before symbol in
+the printer, `ref_pos = position`, `seg_pos = 0` in the reader — each next to the model evaluated at the deciding input. -/
+theorem C11_gen_cigar_steps :
+    Gen.C11.writerGuards = [("mask-and", "", "ValueError"), ("diff-not", "1", "ValueError"), ("GtE", "var", "ValueError"),
+      ("Lt", "0", "ValueError"), ("mask-and-not", "", "ValueError")] ∧
+    Gen.C11.readerRaises = ["ValueError", "ValueError", "ValueError"] ∧
+    (Gen.C11.startClipIndex, Gen.C11.endClipIndex, Gen.C11.endClipMinus) = (0, -1, 1) ∧
+    clips 5 [(some 0, some 1), (some 1, some 2)] = .ok (some (1, 2)) ∧
+    (Gen.C11.trimLower, Gen.C11.trimUpper, Gen.C11.trimPlus) = (0, -1, 1) ∧
+    trimSeg [(some 0, none), (some 1, some 0), (some 2, some 1), (some 3, none)] = .ok [(some 1, some 0), (some 2, some 1)] ∧
+    Gen.C11.printerCountFirst = true ∧ parseCigar ['3', 'M'] = .ok [(.M, 3)] ∧
+    Gen.C11.readerInit = [("ref_pos", "position"), ("seg_pos", "0"), ("i", "0")] ∧
+    readOps 7 [(.M, 1)] = .ok [(some 7, some 0)] ∧
+    -- intron guards: `start >= stop` refuses the empty intron, `start < 0` the negative one, (0, 1) is fine
+    columnOps ⟨[(3, 3)], false, false, false⟩ [] [] [(some 0, some 0)] = .error .valueError ∧
+    columnOps ⟨[(-1, 2)], false, false, false⟩ [] [] [(some 5, some 0)] = .error .valueError ∧
+    columnOps ⟨[(0, 1)], false, false, false⟩ [] [] [(some 5, some 0)] = .ok [.M] := by decide
+
+/-- alignment.py / fasta/convert.py: gap character, `< 2` strings, counter step, the int64 code matrix with gap fill −1,
+per-row alphabet in `get_symbols`, the modes, `stop <= start` (identity) vs `stop < start` (remove_terminal_gaps), the
+orientation `matrix[column[i], column[j]]` with `j > i`, extension-before-opening test order, the terminal-gap fall-backs, the
+IndexError of integer indices, the gap replacement loops of `get_alignment`, `set_alignment`'s name count guard — each next
+to the model evaluated at the deciding input. -/
+theorem C11_gen_alignment_facts :
+    Gen.C11.facts.lookup "gapped.gapChar" = some "-" ∧ Gen.C11.facts.lookup "gapped.test" = some "NotEq -1" ∧
+    gappedStr [] [[none]] 0 = .ok ['-'] ∧ numberRow 0 ['-', 'x'] = [none, some 0] ∧
+    Gen.C11.facts.lookup "trace_from_strings.guard" = some "Lt 2 ValueError" ∧
+    Gen.C11.facts.lookup "trace_from_strings.gapTest" = some "Eq '-'" ∧ Gen.C11.facts.lookup "trace_from_strings.increment" = some "1" ∧
+    traceFromStrings [['A']] = .error .valueError ∧ traceFromStrings [['A'], ['-']] = .ok [[some 0, none]] ∧
+    Gen.C11.facts.lookup "get_codes.dtype" = some "np.int64" ∧ Gen.C11.facts.lookup "get_codes.gapFill" = some "np.int64(-1)" ∧
+    Gen.C11.facts.lookup "get_symbols.alphabet" = some "alignment.sequences[i].get_alphabet()|per-row" ∧
+    Gen.C11.facts.lookup "get_sequence_identity.modes" = some "'all','not_terminal','shortest'" ∧
+    Gen.C11.facts.lookup "get_pairwise_sequence_identity.modes" = some "'all','not_terminal','shortest'" ∧
+    Gen.C11.facts.lookup "get_sequence_identity.guards" = some "stop LtE start ValueError" ∧
+    Gen.C11.facts.lookup "get_pairwise_sequence_identity.guards" = some "stop LtE start ValueError" ∧
+    Gen.C11.facts.lookup "get_sequence_identity.raises" = some "ValueError,ValueError" ∧
+    Gen.C11.facts.lookup "get_sequence_identity.match" = some "len(unique_symbols) == 1 and unique_symbols[0] != -1" ∧
+    Gen.C11.facts.lookup "remove_terminal_gaps.guard" = some "stop Lt start ValueError" ∧
+    -- stop = start: identity refuses (`<=`), remove_terminal_gaps returns the empty alignment (`<`)
+    findTerminalGaps 2 [[some 0, none], [none, some 0]] = .ok (1, 1) ∧
+    identity [[0], [0]] [[some 0, none], [none, some 0]] .notTerminal = .error .valueError ∧
+    removeTerminalGaps 2 [[some 0, none], [none, some 0]] = .ok [] ∧
+    Gen.C11.facts.lookup "score.lookup" = some "column[i],column[j]" ∧
+    Gen.C11.facts.lookup "score.innerRange" = some "range(i + 1, codes.shape[0])" ∧
+    Gen.C11.facts.lookup "score.gapOrder" = some "gap_ext,gap_open" ∧ Gen.C11.facts.lookup "score.raises" = some "TypeError" ∧
+    score [[0, 5], [7, 0]] 0 0 true [[0], [1]] [[some 0, some 0]] = .ok 5 ∧
+    Gen.C11.facts.lookup "find_terminal_gaps.firsts" = some "pos[0] if len>0 else trace.shape[0]" ∧
+    Gen.C11.facts.lookup "find_terminal_gaps.lasts" = some "pos[-1] if len>0 else -1" ∧
+    Gen.C11.facts.lookup "find_terminal_gaps.result" = some "max,min+1" ∧
+    findTerminalGaps 2 [[some 0, none]] = .ok (1, 0) ∧
+    Gen.C11.facts.lookup "remove_gaps.mask" = some "(alignment.trace != -1).all(axis=1)" ∧
+    Gen.C11.facts.lookup "getitem.raises" = some "IndexError,IndexError,IndexError" ∧
+    Gen.C11.facts.lookup "getitem.integralChecks" = some "3" ∧
+    Gen.C11.facts.lookup "get_alignment.replace" = some "seq_str.replace('-', '');seq_str.replace(char, '-')" ∧
+    Gen.C11.facts.lookup "get_alignment.loops" = some "additional_gap_chars;enumerate(seq_strings)" ∧
+    Gen.C11.facts.lookup "set_alignment.guard" = some "len(gapped_seq_strings) NotEq len(seq_names) ValueError" := by decide
+
+/-- multiple.pyx: the leaf returns a **copy**; rows of the first child are rewritten along trace column 0, of the second along
+column 1; order and rows are concatenated first-then-second; `_replace_gaps` writes the gap code for −1 and `seq_code[index]`
+otherwise; the final numbering tests `== gap code → −1`, strips `!= gap code`, reorders rows and trace by `argsort(order)`; the
+distance guard is the strict `S < S_rand` with ValueError and the formula is `−log((S − S_rand)/(S_max − S_rand))` with
+`S_max = (S_ii + S_jj)/2`, `S_rand = pairSum / L + opens·go + extensions·ge` — next to the model at the deciding inputs. -/
+theorem C11_gen_msa_steps :
+    Gen.C11.facts.lookup "progressive.leaf" = some "[sequences[tree_node.index].copy()]" ∧
+    Gen.C11.facts.lookup "progressive.children" = some "child1,child2=tree_node.children" ∧
+    Gen.C11.facts.lookup "progressive.traceColumns" = some "aligned_seqs1:0;aligned_seqs2:1" ∧
+    Gen.C11.facts.lookup "progressive.concat" = some "np.append(incides1,incides2);aligned_seqs1+aligned_seqs2" ∧
+    mergeGroups 9 [(some 0, none), (none, some 0)] [[1]] [[2]] = .ok [[1, 9], [9, 2]] ∧
+    Gen.C11.facts.lookup "replace_gaps.branches" = some "== -1 gap_symbol_code seq_code[index]" ∧
+    replaceGaps 9 [none, some 0] [4] = .ok [9, 4] ∧
+    Gen.C11.facts.lookup "align_multiple.gapCode" = some "new_alphabet.encode(gap_symbol)" ∧
+    Gen.C11.facts.lookup "align_multiple.gapTest" = some "== -1" ∧
+    Gen.C11.facts.lookup "align_multiple.strip" = some "code[code!=gap_symbol_code]" ∧
+    numberCodes 9 0 [4, 9, 5] = [some 0, none, some 1] ∧ strip 9 [4, 9, 5] = [4, 5] ∧
+    Gen.C11.facts.lookup "align_multiple.reorder" = some "np.argsort(order)" ∧
+    Gen.C11.facts.lookup "align_multiple.pick" = some "[aligned_seqs[pos] for pos in new_order]" ∧
+    Gen.C11.facts.lookup "align_multiple.traceReorder" = some "trace[:,new_order]" ∧
+    argsortPerm [2, 0, 1] = [1, 2, 0] ∧
+    Gen.C11.facts.lookup "distance.scoreMax" = some "(scores_v[i,i]+scores_v[j,j])/2.0" ∧
+    Gen.C11.facts.lookup "distance.guard" = some "scores_v[i,j] < score_rand ValueError" ∧
+    Gen.C11.facts.lookup "distance.formula" = some "-log((scores_v[i,j]-score_rand)/(score_max-score_rand))" ∧
+    Gen.C11.facts.lookup "distance.randDivisor" = some "alignments[i,j].trace.shape[0]" ∧
+    Gen.C11.facts.lookup "distance.gapTerms" = some "gap_open_count*gap_open;gap_ext_count*gap_ext" ∧
+    -- strict guard: S = S_rand is not the documented rejection; S_max = (20 + 15)/2 enters as Saa + Sbb
+    distOutcome ⟨5, 20, 15, 60, 4, 1, 0, -10, -10⟩ = .infinite ∧ distOutcome ⟨4, 20, 15, 60, 4, 1, 0, -10, -10⟩ = .belowRandom ∧
+    (⟨5, 20, 15, 60, 4, 1, 0, -10, -10⟩ : DistIn).den = 4 * (20 + 15) - 2 * (60 + 4 * (1 * -10 + 0 * -10)) := by decide
+
 /-! ## progressive multiple alignment -/
 
 /-- an aligner answer used in witnesses: the ungapped alignment of two rows of width 2 -/
